@@ -25,6 +25,8 @@ def bounds(tier, seed):
             'd_wide': 'n_word in %s x n_frac in {0,1,n/2,n-1,n} x signed/unsigned x Python-int raw codes and integer values: B u X, '
                       'multiples of the modulus +-{0,1}, all-ones words of length n-1,n,n+1,2n,4n; ctor / set_val / indexed; scalar and '
                       'object-array carriers' % (WIDE,),
+            'h_interleaved': 'one process visiting signed n / unsigned n-1 / unsigned n / signed n+1 formats (n in 2..12,16,31..33 and 63..66,128) forward then '
+                             'backward with boundary inputs: exposes state kept between calls',
             'e_register': 'x op y, op in {+,-,*}, overflow=wrap, sizing=same: all code pairs n_word<=%d (n_frac 0 and mid), boundary pairs '
                           'for n_word in {8,16,32,63,64,65}' % (4 if tier == 'quick' else 5),
             'seed': seed}
@@ -45,6 +47,8 @@ def shards(tier, seed):
     for nw in WIDE:
         for signed in (True, False):
             out.append({'part': 'd', 'signed': signed, 'nw': nw, 'seed': seed})
+    out.append({'part': 'h', 'nw': 0, 'words': list(range(2, 13)) + [16, 31, 32, 33]})
+    out.append({'part': 'h', 'nw': 0, 'words': [63, 64, 65, 66, 128]})
     for nw in range(1, (4 if tier == 'quick' else 5) + 1):
         out.append({'part': 'e', 'nw': nw})
     for nw in (8, 16, 32, 63, 64, 65):
@@ -341,6 +345,37 @@ def run_shard(sh):
                     judge_array(acc, fmt, r, ds, 'b')
     elif part == 'd':
         run_wide(acc, sh)
+    elif part == 'h':
+        # one process, formats visited in an order that interleaves signedness and neighbouring word lengths, forward then
+        # backward: exposes state kept between calls (e.g. a cache keyed by less than the full format)
+        order = []
+        for nw in sh['words']:
+            order += [Fmt(True, nw, 0), Fmt(False, nw - 1, 0), Fmt(False, nw, 0), Fmt(True, nw + 1, 0), Fmt(True, nw, nw // 2), Fmt(False, nw, nw // 2)]
+        order = [f for f in order if f.n_word >= 1]
+        for fmt in order + order[::-1]:
+            cs = sorted({fmt.lo - fmt.span, fmt.lo - 1, fmt.lo, -fmt.span // 2, -1, 0, 1, fmt.hi, fmt.hi + 1, fmt.hi + fmt.span, -(1 << (fmt.n_word - 1)) if fmt.n_word > 1 else -1})
+            ds = [qval(4 * c + off, fmt) for c in cs for off in (0, 2)]
+            ds = [d for d in ds if in_core(d, fmt)] if fmt.n_word < 60 else []
+            if ds:
+                for r in ('trunc', 'around'):
+                    judge_array(acc, fmt, r, ds, 'h', shift_inv=False)
+                judge_scalar(acc, fmt, 'floor', ds[0], 'int' if ds[0][1] == 0 else 'float', 'ctor', 'h')
+                judge_scalar(acc, fmt, 'floor', ds[1], 'float', 'set_val', 'h')
+            if fmt.n_word >= 60:
+                for c in cs:
+                    for route in ('ctor', 'set_val'):
+                        exp = overflow_code(c, fmt, 'wrap')
+                        acc.evaluations += 1
+                        acc.transitions += 1
+                        try:
+                            got, fl = wide_store(fmt, c, route, True)
+                            if got != exp:
+                                acc.violation('code', {'part': 'd', 'fmt': list(fmt), 'code': c, 'route': route, 'raw': True},
+                                              'fmt=%s wrap raw code %d (interleaved history): stored %d expected %d' % (fmt.dtype, c, got, exp),
+                                              {'part': 'h', 'route': route})
+                        except Exception as e:
+                            acc.violation('exception', {'part': 'd', 'fmt': list(fmt), 'code': c, 'route': route, 'raw': True},
+                                          'fmt=%s wrap raw code %d (interleaved history) raised %r' % (fmt.dtype, c, e), {'part': 'h', 'route': route})
     elif part == 'e':
         for signed in (True, False):
             for nf in sorted({0, nw // 2, nw}):
